@@ -53,6 +53,7 @@ VARIABLES
   exh,       \* scheduler answered "nothing left"
   phase,     \* "loop" | "fin" | "done"
   dead,      \* trials whose failure / external stop the back-end has reported to the loop
+  ldx,       \* [Trials -> BOOLEAN] the current run was started with a checkpoint in place (resume / start-from)
   xf,        \* trials whose run exited on its own and has been polled since, while registered as running
   cq,        \* [Trials -> number of queued clone decisions naming the trial, taken while its checkpoint existed]
   flags,     \* set of raised flags
@@ -63,7 +64,7 @@ VARIABLES
   pst        \* trials the scheduler marked as stopped (PBTTrialState.stopped)
 
 envV  == <<wst, em, ext>>
-monV  == <<dl, life, dec, ps, ck, rmv, nstart, nhand, mst, stopHeld, exh, phase, dead, xf, cq, flags>>
+monV  == <<dl, life, dec, ps, ck, rmv, nstart, nhand, mst, stopHeld, exh, phase, dead, ldx, xf, cq, flags>>
 progV == <<pc, running, seen, batch, snap, done, sstop, lsr, tss, stopReached, exhausted, todoN, cur, todo, exc, stack, pst>>
 vars  == <<cf, envV, monV, progV>>
 
@@ -98,7 +99,7 @@ W_Emit(t) ==
   /\ cf.r3 => pc \notin {"stop", "pause"}                \* environment restriction excluding known finding F03
   /\ em' = [em EXCEPT ![t][CurRun(t)] = @ + 1]
   /\ ck' = [ck EXCEPT ![t] = "present"]      \* the script checkpoints at every report
-  /\ UNCHANGED <<wst, ext, dl, life, dec, ps, rmv, nstart, nhand, mst, stopHeld, exh, phase, dead, xf, cq, flags>>
+  /\ UNCHANGED <<wst, ext, dl, life, dec, ps, rmv, nstart, nhand, mst, stopHeld, exh, phase, dead, ldx, xf, cq, flags>>
 
 W_Exit(t) ==
   /\ wst[t] = "busy" /\ (em[t][CurRun(t)] > 0 \/ cf.emptyexit)
@@ -134,7 +135,14 @@ EvFetch(n, D, V) ==
              cost |-> [t \in Trials |-> MaxOfSeq([j \in 1..Len(V) |-> IF V[j][1] = t THEN V[j][3] ELSE 0], mst.cost[t])]]
   \* a run that exited on its own before this poll and is registered as running: this poll has to see it
   /\ xf' = xf \cup {t \in Trials : wst[t] = "ok" /\ life[t] = "running"}
-  /\ UNCHANGED <<envV, dl, life, dec, ps, ck, rmv, nstart, stopHeld, exh, phase, cq, flags>>
+  /\ UNCHANGED <<envV, dl, life, dec, ps, ck, rmv, nstart, stopHeld, exh, phase, ldx, cq, flags>>
+
+\* the process of the current run of t told whether it found a checkpoint when it started (lock-step LocalBackend):
+\* the checkpoint store of the implementation is compared with the monitor's
+EvLoaded(t, b) ==
+  /\ flags' = flags \cup Flag(ldx[t] /\ ~b, "checkpoint_not_found_by_worker")          \* C20
+                    \cup Flag(~ldx[t] /\ b, "checkpoint_unexpected")
+  /\ UNCHANGED <<envV, dl, life, dec, ps, ck, rmv, nstart, nhand, mst, stopHeld, exh, phase, dead, ldx, xf, cq>>
 
 \* backend.busy_trial_ids() returned S (start_jobs_without_delay = False): an observation of the processes
 EvBusy(S) ==
@@ -153,7 +161,7 @@ EvResult(t, r, i, d) ==
        \cup Flag(phase # "loop", "result_after_end")
   /\ dl'  = IF r = c /\ r >= 1 THEN [dl EXCEPT ![t][r] = i] ELSE dl
   /\ dec' = IF d \in {"STOP", "PAUSE"} THEN [dec EXCEPT ![t] = d] ELSE dec
-  /\ UNCHANGED <<envV, life, ps, ck, rmv, nstart, nhand, mst, stopHeld, exh, phase, dead, xf, cq>>
+  /\ UNCHANGED <<envV, life, ps, ck, rmv, nstart, nhand, mst, stopHeld, exh, phase, dead, ldx, xf, cq>>
 
 \* backend.stop_trial(t) / backend.pause_trial(t): immediate kill
 EvStopTrial(t) ==
@@ -161,28 +169,28 @@ EvStopTrial(t) ==
                     \cup Flag(dec[t] # "STOP" /\ phase = "loop", "stop_without_decision")
   /\ wst'  = [wst EXCEPT ![t] = IF @ = "busy" THEN "killed" ELSE @]
   /\ life' = [life EXCEPT ![t] = "stopped"]
-  /\ UNCHANGED <<em, ext, dl, dec, ps, ck, rmv, nstart, nhand, mst, stopHeld, exh, phase, dead, xf, cq>>
+  /\ UNCHANGED <<em, ext, dl, dec, ps, ck, rmv, nstart, nhand, mst, stopHeld, exh, phase, dead, ldx, xf, cq>>
 
 EvPauseTrial(t) ==
   /\ flags' = flags \cup Flag(life[t] # "running", "pause_not_running")
                     \cup Flag(dec[t] # "PAUSE", "pause_without_decision")
   /\ wst'  = [wst EXCEPT ![t] = IF @ = "busy" THEN "killed" ELSE @]
   /\ life' = [life EXCEPT ![t] = "paused"]
-  /\ UNCHANGED <<em, ext, dl, dec, ps, ck, rmv, nstart, nhand, mst, stopHeld, exh, phase, dead, xf, cq>>
+  /\ UNCHANGED <<em, ext, dl, dec, ps, ck, rmv, nstart, nhand, mst, stopHeld, exh, phase, dead, ldx, xf, cq>>
 
 \* scheduler.on_trial_remove / on_trial_complete / on_trial_error
 EvRemove(t) ==
   /\ flags' = flags \cup Flag(ps[t] # "live", "protocol_remove")
                     \cup Flag(dec[t] = "none", "remove_without_decision")
   /\ ps' = [ps EXCEPT ![t] = "removed"]
-  /\ UNCHANGED <<envV, dl, life, dec, ck, rmv, nstart, nhand, mst, stopHeld, exh, phase, dead, xf, cq>>
+  /\ UNCHANGED <<envV, dl, life, dec, ck, rmv, nstart, nhand, mst, stopHeld, exh, phase, dead, ldx, xf, cq>>
 
 EvComplete(t) ==
   /\ flags' = flags \cup Flag(ps[t] # "live", "protocol_complete")
                     \cup Flag(wst[t] # "ok", "complete_not_exited")
                     \cup Flag(CurRun(t) >= 1 /\ dl[t][CurRun(t)] < em[t][CurRun(t)], "complete_missing")  \* C02
   /\ ps' = [ps EXCEPT ![t] = "completed"]
-  /\ UNCHANGED <<envV, dl, life, dec, ck, rmv, nstart, nhand, mst, stopHeld, exh, phase, dead, xf, cq>>
+  /\ UNCHANGED <<envV, dl, life, dec, ck, rmv, nstart, nhand, mst, stopHeld, exh, phase, dead, ldx, xf, cq>>
 
 EvError(t) ==
   /\ flags' = flags \cup Flag(ps[t] = "removed", "error_after_remove")       \* C01: second end-of-run notification
@@ -191,13 +199,13 @@ EvError(t) ==
   /\ ps' = [ps EXCEPT ![t] = "errored"]
   \* an observed crash is registered as failed whatever was decided before
   /\ life' = [life EXCEPT ![t] = IF wst[t] = "fail" THEN "failed" ELSE IF @ = "running" THEN "stopped" ELSE @]
-  /\ UNCHANGED <<envV, dl, dec, ck, rmv, nstart, nhand, mst, stopHeld, exh, phase, dead, xf, cq>>
+  /\ UNCHANGED <<envV, dl, dec, ck, rmv, nstart, nhand, mst, stopHeld, exh, phase, dead, ldx, xf, cq>>
 
 \* TunerCallback.on_trial_complete: the loop registered t as completed
 EvCbComplete(t) ==
   /\ flags' = flags \cup Flag(wst[t] # "ok", "complete_not_exited")
   /\ life' = [life EXCEPT ![t] = IF @ = "running" THEN "completed" ELSE @]
-  /\ UNCHANGED <<envV, dl, dec, ps, ck, rmv, nstart, nhand, mst, stopHeld, exh, phase, dead, xf, cq>>
+  /\ UNCHANGED <<envV, dl, dec, ps, ck, rmv, nstart, nhand, mst, stopHeld, exh, phase, dead, ldx, xf, cq>>
 
 \* backend.start_trial(config, checkpoint_trial_id = from) returned trial t
 EvStart(t, from) ==
@@ -220,18 +228,19 @@ EvStart(t, from) ==
   /\ nstart' = nstart + 1
   /\ cq' = IF from \in Trials /\ cq[from] > 0 THEN [cq EXCEPT ![from] = @ - 1] ELSE cq
   /\ xf' = xf \ {t}
+  /\ ldx' = [ldx EXCEPT ![t] = (from \in Trials /\ ck[from] = "present")]
   /\ UNCHANGED <<ext, dec, ps, rmv, nhand, mst, stopHeld, exh, phase, dead>>
 
 EvAdd(t) ==
   /\ flags' = flags \cup Flag(ps[t] # "new" \/ life[t] # "running", "protocol_add")
   /\ ps' = [ps EXCEPT ![t] = "live"]
-  /\ UNCHANGED <<envV, dl, life, dec, ck, rmv, nstart, nhand, mst, stopHeld, exh, phase, dead, xf, cq>>
+  /\ UNCHANGED <<envV, dl, life, dec, ck, rmv, nstart, nhand, mst, stopHeld, exh, phase, dead, ldx, xf, cq>>
 
 \* the scheduler queued "start a new trial from the checkpoint of s" for a later suggest()
 \* (PopulationBasedTraining._trial_decisions_stack.append, inside on_trial_result)
 EvQueue(s) ==
   /\ cq' = IF s \in Trials /\ ck[s] = "present" THEN [cq EXCEPT ![s] = @ + 1] ELSE cq
-  /\ UNCHANGED <<envV, dl, life, dec, ps, ck, rmv, nstart, nhand, mst, stopHeld, exh, phase, dead, xf, flags>>
+  /\ UNCHANGED <<envV, dl, life, dec, ps, ck, rmv, nstart, nhand, mst, stopHeld, exh, phase, dead, ldx, xf, flags>>
 
 \* backend.resume_trial(t)
 EvResume(t) ==
@@ -251,6 +260,7 @@ EvResume(t) ==
   /\ life' = [life EXCEPT ![t] = "running"]
   /\ ps'  = [ps EXCEPT ![t] = "live"]
   /\ xf' = xf \ {t}
+  /\ ldx' = [ldx EXCEPT ![t] = (ck[t] = "present")]
   /\ UNCHANGED <<ext, ck, rmv, nstart, nhand, mst, stopHeld, exh, phase, dead, cq>>
 
 \* backend.delete_checkpoint(t)
@@ -259,17 +269,17 @@ EvDelete(t) ==
                                  \/ phase # "loop"
                                  \/ (life[t] = "paused" /\ (t \in rmv \/ cf.spec)) ), "delete_live")   \* C20
   /\ ck' = [ck EXCEPT ![t] = IF @ = "none" THEN "none" ELSE "deleted"]
-  /\ UNCHANGED <<envV, dl, life, dec, ps, rmv, nstart, nhand, mst, stopHeld, exh, phase, dead, xf, cq>>
+  /\ UNCHANGED <<envV, dl, life, dec, ps, rmv, nstart, nhand, mst, stopHeld, exh, phase, dead, ldx, xf, cq>>
 
 \* the scheduler declares S as never-resumable (trials_checkpoints_can_be_removed)
 EvRemovable(S) ==
   /\ rmv' = rmv \cup S
-  /\ UNCHANGED <<envV, dl, life, dec, ps, ck, nstart, nhand, mst, stopHeld, exh, phase, dead, xf, cq, flags>>
+  /\ UNCHANGED <<envV, dl, life, dec, ps, ck, nstart, nhand, mst, stopHeld, exh, phase, dead, ldx, xf, cq, flags>>
 
 \* scheduler.suggest returned None
 EvExhausted ==
   /\ exh' = TRUE
-  /\ UNCHANGED <<envV, dl, life, dec, ps, ck, rmv, nstart, nhand, mst, stopHeld, phase, dead, xf, cq, flags>>
+  /\ UNCHANGED <<envV, dl, life, dec, ps, ck, rmv, nstart, nhand, mst, stopHeld, phase, dead, ldx, xf, cq, flags>>
 
 \* counters the monitor derives from the events
 MonFailed   == NumLife({"failed"})
@@ -293,12 +303,12 @@ EvStopCrit(b) ==
                     \* it registered as running (its last reports and its end were never passed on)
                     \cup Flag(\E t \in xf : life[t] = "running", "completed_unregistered")
   /\ stopHeld' = (stopHeld \/ b)
-  /\ UNCHANGED <<envV, dl, life, dec, ps, ck, rmv, nstart, nhand, mst, exh, phase, dead, xf, cq>>
+  /\ UNCHANGED <<envV, dl, life, dec, ps, ck, rmv, nstart, nhand, mst, exh, phase, dead, ldx, xf, cq>>
 
 \* on_loop_start: a new iteration begins
 EvIter ==
   /\ flags' = flags \cup Flag(stopHeld /\ ~(cf.wait /\ NumLife({"running"}) > 0), "loop_after_stop")   \* C12
-  /\ UNCHANGED <<envV, dl, life, dec, ps, ck, rmv, nstart, nhand, mst, stopHeld, exh, phase, dead, xf, cq>>
+  /\ UNCHANGED <<envV, dl, life, dec, ps, ck, rmv, nstart, nhand, mst, stopHeld, exh, phase, dead, ldx, xf, cq>>
 
 \* backend.stop_all(): S = trials it stopped
 EvStopAll(S) ==
@@ -306,7 +316,7 @@ EvStopAll(S) ==
   \* from the tuner's point of view everything it believed running is now stopped
   /\ life' = [t \in Trials |-> IF life[t] = "running" THEN "stopped" ELSE life[t]]
   /\ phase' = "fin"
-  /\ UNCHANGED <<em, ext, dl, dec, ps, ck, rmv, nstart, nhand, mst, stopHeld, exh, dead, xf, cq, flags>>
+  /\ UNCHANGED <<em, ext, dl, dec, ps, ck, rmv, nstart, nhand, mst, stopHeld, exh, dead, ldx, xf, cq, flags>>
 
 \* run() returned (kind = "normal") or raised (kind = "failure": named = trial in the message;
 \* kind = "nometrics": a trial completed without reporting; "other")
@@ -327,7 +337,7 @@ EvEnd(kind, named, cnt) ==
        \cup Flag(kind \in {"normal", "failure"} /\ cnt # <<>> /\ cnt # <<nstart, NumLife({"completed"}), NumLife({"failed"}),
                                       NumLife({"completed", "stopped", "failed"})>>, "counters")   \* C12
   /\ phase' = "done"
-  /\ UNCHANGED <<envV, dl, life, dec, ps, ck, rmv, nstart, nhand, mst, stopHeld, exh, dead, xf, cq>>
+  /\ UNCHANGED <<envV, dl, life, dec, ps, ck, rmv, nstart, nhand, mst, stopHeld, exh, dead, ldx, xf, cq>>
 
 ----------------------------------------------------------------------------
 (* The properties, as invariants over the monitor *)
@@ -359,7 +369,7 @@ FailureNotifiedOnce == NoFlag("protocol_error") /\ NoFlag("failure_not_notified"
 \* C20
 DeleteOnlyWhenDead  == NoFlag("delete_live")
 CopySourceExists    == NoFlag("copy_missing") /\ NoFlag("copy_missing_stopped_while_queued")
-ResumeSourceExists  == NoFlag("resume_ckpt_missing")
+ResumeSourceExists  == NoFlag("resume_ckpt_missing") /\ NoFlag("checkpoint_not_found_by_worker") /\ NoFlag("checkpoint_unexpected")
 StopPauseDecided    == NoFlag("stop_without_decision") /\ NoFlag("pause_without_decision")
 
 ----------------------------------------------------------------------------
@@ -373,7 +383,7 @@ InitCommon(c) ==
   /\ ck = [t \in Trials |-> "none"] /\ rmv = {} /\ nstart = 0 /\ nhand = 0
   /\ mst = [min |-> NoMin, max |-> NoMax, cost |-> [t \in Trials |-> 0]]
   /\ stopHeld = FALSE /\ exh = FALSE /\ phase = "loop" /\ dead = {} /\ flags = {}
-  /\ cq = [t \in Trials |-> 0] /\ xf = {} /\ stack = <<>> /\ pst = {}
+  /\ cq = [t \in Trials |-> 0] /\ xf = {} /\ ldx = [t \in Trials |-> FALSE] /\ stack = <<>> /\ pst = {}
   /\ pc = "stopcond0" /\ running = {} /\ seen = [t \in Trials |-> 0]
   /\ batch = [t \in Trials |-> <<0, 0>>] /\ snap = [t \in Trials |-> "none"]
   /\ done = [t \in Trials |-> "none"] /\ sstop = {} /\ lsr = {}
